@@ -155,6 +155,79 @@ def check_labels(prog, rep):
                       'two factors are contractible', f.lineno)
 
 
+def check_arg_aliasing(prog, rep):
+    """an in-place method applied to X inside one argument of a call while a later argument
+    still uses X: the later argument sees the modified X (left-to-right evaluation)"""
+    import re
+    m = prog.module(NPC)
+    n = 0
+    for q, f in m.functions.items():
+        for c in body_nodes(f):
+            if not isinstance(c, ast.Call) or len(c.args) < 2:
+                continue
+            for i, a in enumerate(c.args):
+                # base of a chain  X.imeth(...)  where every link before is in-place
+                node = a
+                touched = None
+                while isinstance(node, ast.Call) and isinstance(node.func, ast.Attribute):
+                    nm = node.func.attr
+                    recv = node.func.value
+                    if re.match(r'^i[a-z]', nm) and not nm.startswith('is_') and isinstance(
+                            recv, ast.Name):
+                        touched = recv.id
+                        break
+                    if re.match(r'^i[a-z]', nm) and not nm.startswith('is_'):
+                        node = recv
+                        continue
+                    break
+                if touched is None:
+                    continue
+                later = [b for b in c.args[i + 1:] if touched in names_in(b)]
+                n += 1
+                rep.instance('FACT-arg-alias', {'function': q, 'call': unparse(c)[:80],
+                                                'modified': touched})
+                if later:
+                    rep.violation('FACT-arg-alias', m, q, 'inplace-then-reuse:' + touched,
+                                  '`%s`: argument %d modifies `%s` in place and a later argument '
+                                  '(`%s`) uses `%s` again — it sees the modified tensor (e.g. '
+                                  'singular values multiplied in twice)' %
+                                  (unparse(c)[:90], i, touched, unparse(later[0])[:40], touched),
+                                  c.lineno)
+    return n
+
+
+def check_dtypes(prog, rep):
+    """the declared dtype of a result whose blocks are replaced by LAPACK output covers that
+    output: for the general (non-hermitian) eigen-decomposition it depends on `hermitian`"""
+    from ..core import depends_on
+    m = prog.module(NPC)
+    f = m.func('_eig_worker')
+    rep.instance('FACT-dtype', {'function': '_eig_worker'})
+    mk = [c for c in body_nodes(f) if isinstance(c, ast.Call) and dotted(c.func) == 'diag']
+    ok = False
+    for c in mk:
+        d = kwarg(c, 'dtype')
+        if d is not None and depends_on(f, d, ['hermitian']) and 'a.dtype' in unparse(d):
+            ok = True
+    if not ok:
+        rep.violation('FACT-dtype', m, '_eig_worker', 'eigenvector-dtype',
+                      'the eigenvector Array must be declared with a dtype covering both the input '
+                      'dtype and the LAPACK result (complex for the general eigenproblem): '
+                      'otherwise its blocks are complex while the Array claims to be real '
+                      '(to_ndarray / tensordot silently drop imaginary parts)', f.lineno)
+    for qn in ('_eig_worker', '_eigvals_worker'):
+        g = m.func(qn)
+        rep.instance('FACT-dtype', {'function': qn, 'check': 'eigenvalue dtype'})
+        ok = any(isinstance(s, ast.Assign) and unparse(s.targets[0]) == 'dtype' and isinstance(
+            s.value, ast.IfExp) and unparse(s.value.test) == 'hermitian' and
+            'float' in unparse(s.value.body) and 'complex' in unparse(s.value.orelse)
+            for s in stmts_of(g))
+        if not ok:
+            rep.violation('FACT-dtype', m, qn, 'eigenvalue-dtype',
+                          'eigenvalues are real for hermitian input and complex otherwise',
+                          g.lineno)
+
+
 def run(prog, rep, tier):
     rep.rule('CHARGE-factor', 'symbolic evaluation of the leg charges built by _svd_worker, qr, '
              'orthogonal_columns in every direction case: eff(l1)+eff(l2)-qtotal == 0 for each '
@@ -165,6 +238,8 @@ def run(prog, rep, tier):
     n_ob, n_dis = check_factorization_charges(prog, rep)
     check_pipes(prog, rep)
     check_labels(prog, rep)
+    check_arg_aliasing(prog, rep)
+    check_dtypes(prog, rep)
     rep.floor('CHARGE-factor', 40)
     rep.floor('FACT-pipes', 6)
     rep.floor('FACT-labels', 6)
